@@ -45,8 +45,12 @@ def matrices(rnd, tier):
     out += [np.array([[0., 3., 0.], [2., 5., 4.], [0., 1., 8.]]), np.array([[5., 1.], [4., 0.]]), np.array([[0., 2., 0., 0.], [3., 1., 2., 0.], [0., 2., 2., 3.], [0., 0., 4., 0.]])]
     # large counts with dominant self-counts: the convergence test must not scale with the data
     base = np.array([[1000., 3., 1.], [2., 800., 5.], [1., 4., 1200.]])
-    for sc in (1.0, 2e3, 2e6, 2e9):
+    for sc in (1.0, 2e3, 2e6, 2e9, 1e-6, 1e-11, 1e-14):
         out.append(base * sc)
+    # real-valued counts in very small units (weights, normalised tallies): the estimate must not depend on the unit
+    small = np.array([[0.0, 3.0, 1.0], [2.0, 5.0, 4.0], [1.0, 1.0, 8.0]])
+    for sc in (1e-9, 1e-12):
+        out.append(small * sc)
     return out
 
 
